@@ -7,7 +7,7 @@ use serde_json::{json, Value};
 pub const DEF: PropDef = PropDef {
     id: "C05",
     level: "exploration",
-    rule: "complete enumeration of programs = fixed prelude (global x, helper function yod) + function `zed takes u` whose body is every sequence of 1..2 (thorough 1..3) statements of a 22-statement body alphabet (locals, parameter mutation, global update, returns at every depth, recursion, nested call, pronoun read/write, array parameter mutation) + every sequence of 1..2 (with one-statement bodies: 1..3) statements of a 23-statement caller alphabet (calls in every position, wrong arity, calling a variable / unknown name, leaked locals, block locals, shadowing, side-effecting arguments, arrays by value, pronouns after blocks and calls); outcome and output compared with the reference interpreter under both scoping disciplines; non-trivial = judged (not skipped as unspecified); distinct = distinct program text",
+    rule: "complete enumeration of programs = fixed prelude (global x, helper function yod) + function `zed takes u` whose body is every sequence of 1..2 (thorough 1..3) statements of a 22-statement body alphabet (locals, parameter mutation, global update, returns at every depth, recursion, nested call, pronoun read/write, array parameter mutation) + every sequence of 1..2 (with one-statement bodies: 1..3) statements of a 29-statement caller alphabet (calls in every position, wrong arity, calling a variable / unknown name, leaked locals, block locals, shadowing, side-effecting arguments, arrays by value, pronouns after blocks and calls); outcome and output compared with the reference interpreter under both scoping disciplines; non-trivial = judged (not skipped as unspecified); distinct = distinct program text",
     assumptions: &[
         "programs on which lexical and dynamic scoping differ (callee touching a caller's non-global local) are skipped as U-scope; pronoun uses whose referent depends on unspecified evaluation order are skipped as U-pronoun",
         "reference interpreter written from the property text",
@@ -65,6 +65,12 @@ pub const MAIN: &[&str] = &[
     "two takes k, j\nsay k\nsay j\n\nrock q with 1, 2\ntwo taking roll q, roll q\n",
     "put 3 into k\nput 4 into j\nswap takes k, j\nsay k\nsay j\ngive back k minus j\n\nsay swap taking j, k\nsay swap taking k, swap taking j, k\nsay k\n",
     "put 3 into u\nsay zed taking u plus x\nsay u\n",
+    "ping takes k\nif k is 0\ngive back 0\n\nput k minus 1 into j\ngive back pong taking j\n\npong takes k\ngive back 1 plus ping taking k\n\nsay ping taking 3\n",
+    "say late taking 1\n",
+    "if true\ninner takes k\ngive back k times 2\n\nsay inner taking 2\n\nsay inner taking 3\n",
+    "mk takes k\nrock r with k, k\ngive back r\n\nput mk taking 5 into w\nrock w with 6\nsay w\nsay mk taking 1\nsay r\n",
+    "Zed Yod takes the zed\ngive back the zed plus 1\n\nsay Zed Yod taking 4\nsay ZED YOD taking x\n",
+    "outer takes k\ninner takes j\ngive back j times 2\n\ngive back inner taking k\n\nsay outer taking 4\nsay inner taking 1\n",
 ];
 
 pub const PRELUDE: &str = "put 1 into x\nyod takes k\nput k plus 1 into s\ngive back s\n\n";
